@@ -57,6 +57,17 @@ def structured(fam, rng):
                 out.append([a, b])
             out.append([a, rng.randrange(Q)])
             out.append([rng.randrange(Q), a])
+    # coefficients that alias constants of the library: curve constant b = 4 resp. 4(1+u), the non-residue 1+u and its
+    # inverse, the SWU constants Z, A', B' (Fq2 pairs placed in every Fq2 slot of the element)
+    xi_inv = F.f2_inv((1, 1))
+    for c0, c1 in [(4, 4), (1, 1), xi_inv, ((-2) % Q, (-1) % Q), (0, 240), (1012, 1012), (4, 0), (11, 0)]:
+        for slot in range(0, n, 2) if n >= 2 else []:
+            v = [0] * n
+            v[slot], v[slot + 1] = c0, c1
+            out.append(v)
+            w_ = [rng.randrange(Q) for _ in range(n)]
+            w_[slot], w_[slot + 1] = c0, c1
+            out.append(w_)
     # zero patterns
     masks = range(1 << n) if n <= 6 else [rng.getrandbits(n) for _ in range(48)] + [(1 << n) - 1 - (1 << i) for i in range(n)]
     for mk in masks:
@@ -69,7 +80,7 @@ def plan(tier, seed):
     no = 0
     reps = 2 if tier == "quick" else 150
     for fam in ("fq2", "fq6", "fq12"):
-        for part in ("grid", "frob", "sparse"):
+        for part in ("grid", "frob", "sparse", "related"):
             shards.append(dict(no=no, fam=fam, part=part, idx=0)); no += 1
         for i in range(3 * reps if fam != "fq2" else 2 * reps):
             shards.append(dict(no=no, fam=fam, part="random", idx=i)); no += 1
@@ -111,6 +122,39 @@ def run_shard(shard, tier, seed, wd, res):
                 s.op(fam + ".ne", ta, mk(a2))
         for op in ("zero", "one"):
             s.op("%s.%s" % (fam, op))
+    elif part == "related":
+        # binary operations whose operands are RELATED: an element with its negative, inverse, conjugate, Frobenius
+        # images, square, non-residue multiple (the second operand is computed by the library itself)
+        S = structured(fam, rng)
+        S = S[:: max(1, len(S) // (30 if tier == "quick" else 150))] + [rand_coeffs(rng, n) for _ in range(10 if tier == "quick" else 100)]
+        for a in S:
+            ta = mk(a)
+            rel = [s.op(fam + ".neg", ta), s.op(fam + ".sqr", ta), s.op(fam + ".dbl", ta)]
+            for k in (1, 2, 3, 6):
+                rel.append(s.op(fam + ".frob", ta, V.w(k)))
+            if fam == "fq12":
+                rel.append(s.op("fq12.conj", ta))
+            if fam in ("fq2", "fq6"):
+                rel.append(s.op(fam + ".mul_nr", ta))
+            inv = s.op(fam + ".inv", ta)
+            if any(a):
+                rel.append(inv)
+            for b in rel:
+                for op in ("add", "sub", "mul", "eq", "ne"):
+                    s.op("%s.%s" % (fam, op), ta, b)
+                s.op(fam + ".mul", b, ta)
+                s.op(fam + ".sub", b, ta)
+            # results that are 0 / 1 by construction, fed on
+            z = s.op(fam + ".add", ta, rel[0])
+            s.op(fam + ".inv", z)
+            s.op(fam + ".is_zero", z)
+            s.op(fam + ".mul", z, ta)
+            if any(a):
+                o = s.op(fam + ".mul", ta, inv)
+                s.op(fam + ".inv", o)
+                s.op(fam + ".mul", o, ta)
+                s.op(fam + ".sqr", o)
+                s.op(fam + ".frob", o, V.w(1))
     elif part == "frob":
         S = structured(fam, rng)
         S = S[:: max(1, len(S) // 10)] + [rand_coeffs(rng, n) for _ in range(6 if tier == "quick" else 40)]
